@@ -1232,3 +1232,39 @@ silent('C04', 'buffer-do-reserve-get-looks-at-the-list-after-the-grant',
 silent('C02', 'buffer-do-reserve-get-looks-at-the-list-after-the-grant',
        lambda p: M.insert_after(p, S_BUF, 'BufferStore._do_reserve_get', M.stmt_calling('self.reservations_get.append'),
                                 'for _seen in list(self.reservations_get):\n    _last_seen = _seen'))
+
+
+# ============================================================================================ round-7 rules: behaviour-preserving twins
+# N36: `L.remove(x)` and `L.pop(L.index(x))` are the same removal from a local token list
+for _prop in ('C10', 'C16', 'C20', 'C03', 'C06'):
+    silent(_prop, 'combiner-token-removed-with-remove-instead-of-pop-index',
+           lambda p: {N_CMB: p.modules[N_CMB].src.replace('reservation_tokens.pop(token_index)', 'reservation_tokens.remove(chosen_get_event)', 1)})
+# C10.R5: transfers go through the edge; taking the edge into a local first is the same call
+silent('C10', 'combiner-takes-ingredient-through-a-local-edge',
+       lambda p: {N_CMB: p.modules[N_CMB].src.replace('self.item_in_process = self.in_edges[edge_index].get(chosen_get_event)',
+                                                      'ingredient_edge = self.in_edges[edge_index]\n                    self.item_in_process = ingredient_edge.get(chosen_get_event)', 1)})
+fire('C10', 'machine-pull-through-the-store-handle', 'C10.R5', 'transfer-through-edge',
+     lambda p: {N_MAC: p.modules[N_MAC].src.replace('pulled_item =outstore.get(get_token)', 'pulled_item =get_token.resourcename.get(get_token)', 1)}
+     if 'pulled_item =outstore.get(get_token)' in p.modules[N_MAC].src else (_ for _ in ()).throw(M.Stale('anchor `pulled_item =outstore.get(get_token)` not found')))
+# C15.R10: registration guarded by a membership test - an early return / raise on "already there" is the same guard
+silent('C15', 'edge-connect-registers-with-early-continue-style-guard',
+       lambda p: {'edges/edge.py': p.modules['edges/edge.py'].src.replace('        if self not in src.out_edges:\n            src.out_edges.append(self)',
+                                                                         '        if self in src.out_edges:\n            pass\n        else:\n            src.out_edges.append(self)', 1)})
+fire('C15', 'machine-add-out-edges-accepts-duplicates', 'C15.R10', 'Machine.add_out_edges',
+     lambda p: M.replace_node(p, N_MAC, 'Machine.add_out_edges', lambda n: isinstance(n, ast.If) and 'not in self.out_edges' in ast.unparse(n.test), 'self.out_edges.append(edge)'))
+# C17.R4: names say what they mean - a re-ordered but equivalent chain is fine
+silent('C17', 'machine-state-groups-credited-by-nested-ifs',
+       lambda p: M.replace_node(p, N_MAC, 'Machine.update_state_rep', lambda n: isinstance(n, ast.If) and ast.unparse(n.test).replace(' ', '') == 'previous_state_rep[1]>0',
+                                sub('if previous_state_rep[1] > 0:', 'if not previous_state_rep[1] <= 0:'), which=-1) if False else
+       {N_MAC: p.modules[N_MAC].src.replace('            if previous_state_rep[0]>0  and previous_state_rep[1]==0:', '            if previous_state_rep[1]==0 and previous_state_rep[0]>0:', 1)})
+# C12.R1 moving time: the same subtraction spelled through a local
+silent('C12', 'continuous-spacing-test-takes-off-the-interruption-through-a-local',
+       lambda p: {S_BELT: p.modules[S_BELT].src.replace(
+           'time_on_belt = self.env.now- self.items[-1][0].conveyor_entry_time - self.items[-1][0].total_interruption_time ',
+           'stood_still = self.items[-1][0].total_interruption_time\n                    time_on_belt = self.env.now- self.items[-1][0].conveyor_entry_time - stood_still', 1)})
+# C19.R1: dict-view algebra gives a set; iterating the dict itself (insertion order) does not
+silent('C19', 'combiner-iterates-a-dict-of-tokens-in-insertion-order',
+       lambda p: {N_CMB: p.modules[N_CMB].src.replace('                triggered_events = self.env.any_of(reservation_tokens)\n',
+                                                      '                token_edge = {tok: idx for tok, idx in zip(reservation_tokens, reservation_indx)}\n'
+                                                      '                for _tok in token_edge:\n                    _last = token_edge[_tok]\n'
+                                                      '                triggered_events = self.env.any_of(reservation_tokens)\n', 1)})
